@@ -209,6 +209,20 @@ def run(repo: Repo) -> Result:
     CONVERTED = {"KeyError", "TypeError", "IndexError"}
     for f_, ln, why in mapping_first_unguarded(repo):
         res.add("C16-MISSING", f_.qual, "first-of-empty-mapping", f"{f_.qual}: {why}: `.first` of an empty mapping raises StopIteration (RuntimeError under asyncio) out of render instead of resolving to the undefined value", f_.file, ln)
+    # what runs *after* a lookup has failed — building the undefined value and its hint in
+    # ``RenderContext.get*`` / ``_segments_str`` — must not raise either, whatever the failed segment
+    # is (a missing key variable is an Undefined, a nil or a float, not a str): decided by the
+    # exception-escape engine of C02 (same run, findings whose site is in that code re-keyed)
+    from . import c02 as _c02
+
+    r02 = _c02.run(repo)
+    AFTER_FAILURE = (" in liquid.context._segments_str", " in liquid.context.RenderContext.get ", " in liquid.context.RenderContext.get_async ", " in liquid.context.RenderContext._undefined")
+    res.ob("missing:after-failure", 2)
+    seen_af = set()
+    for f02 in r02.findings:
+        if f02.rule == "C02-ESCAPE" and any(a in f02.message for a in AFTER_FAILURE) and f02.detail not in seen_af:
+            seen_af.add(f02.detail)
+            res.add("C16-MISSING", "liquid.context.RenderContext.get", f"after-failure:{f02.detail[:80]}", "building the undefined value for a failed lookup can itself raise: " + f02.message[:400], f02.file, f02.line)
     rc = repo.cls("liquid.context.RenderContext")
     for m in ("get_item", "get_item_async"):
         g_ = repo.own_method("liquid.context.RenderContext", m)
